@@ -68,6 +68,8 @@ func gen(args []string) {
 		genTree(w, tier, r)
 	case "EXPR":
 		genExpr(w, tier, r)
+	case "BRIDGE":
+		genBridge(w, tier, r)
 	case "EXPRPOS":
 		genExprPos(w, tier, r)
 	case "TYPE":
